@@ -112,13 +112,14 @@ PROPS["C13"] = dict(
     module="Panacea.Properties.C13",
     obligations=["Panacea.C13.countInv_genesis", "Panacea.C13.countInv_reachable", "Panacea.C13.total_topics_eq_listed",
                  "Panacea.C13.total_writers_eq_listed", "Panacea.C13.topics_listing_only_owner",
-                 "Panacea.C13.listing_walk_complete", "Panacea.C13.listing_count_total",
+                 "Panacea.C13.listing_walk_complete", "Panacea.C13.listing_count_total", "Panacea.C13.writers_listing_only_topic",
+                 "Panacea.C13.listing_reverse_walk_complete", "Panacea.C13.listing_offset_page", "Panacea.C13.listing_offset_walk_complete",
                  "Panacea.C18.prefix_exact", "Panacea.C01.addRecord_acknowledged"],
     streams=[dict(name="aol", quick=150, thorough=3000, thorough_seeds=3)],
     trusted=AOL_TRUSTED + ["hand-written model Panacea/Model/Paginate.lean of cosmos-sdk v0.47.12 types/query/pagination.go (Paginate, getIterator), tied by the aol stream's random page requests and full walks"],
     assumptions=["CountInv s0 (sorted tables, well-formed keys, counters = listing lengths mod 2^64): proved for the empty genesis, preserved by every message",
                  "listing sizes and counters below 2^64 for the plain-equality corollaries",
-                 "partial: reverse and offset-based walks, and the Writers analogue of topics_listing_only_owner, are covered by the correspondence stream only"],
+                 "the theorems about walks are about the pagination model applied to any sorted view; that the Topics / Writers views are sorted with non-empty keys follows from the store invariant (Sorted) and key well-formedness"],
 )
 
 PROPS["C14"] = dict(
